@@ -14,6 +14,19 @@ and interpreted.  Every observation, and after every step a fixed valid probe pa
 compared with (a) a brand-new object configured identically that performs only that operation and (b) the independent
 reference interpreter `refimpl` given the object's own constants / typedefs — the latter also exposes state shared by all
 objects of the process.
+
+History independence (harness/t4_c14.py): every observation on an object with a history is compared with the same operation on
+a brand-new object that performed only the *definitional* steps of that history (load, add_type, add_field, cs.endian = ...) and
+none of the earlier resolves / parses / dumps / constructions / failures.
+ * alias histories: names bound by add_type() to other names (chains of up to four links, also through built-in aliases like DWORD),
+   by typedef text and used by structures; inner names re-pointed with add_type(..., replace=True); resolve / attribute access /
+   read / parse / array parse / dumps / failing resolves and parses through the outer names before and after each re-pointing.
+ * type histories: structures and unions (members smallest-first, largest-first or shuffled; arrays, char arrays, nested and
+   anonymous structures; a structure holding the union and an array of it; compiled or not): dumps / len / bytes / == / != / hash /
+   repr / bool of parsed, default, positionally and keyword constructed instances, member assignment, failing constructions and
+   parses, add_field() in the middle; then positional / keyword / default construction and parsing again.  Values are compared by
+   member name.  A fixed probe set per type / name is re-observed after the steps, so reported histories are short; each case
+   carries two standalone scripts (with and without the earlier observations) that `--replay` re-executes.
 """
 from __future__ import annotations
 
@@ -38,6 +51,11 @@ def run(env) -> Result:
                 "Purity histories (s6_c14): objects that share definition text but not constants / typedefs / sizeof targets; loads, endianness "
                 "changes, good and failing parses (every cut point), scalar / array / structure dumps; each observation and a probe parse of every "
                 "type after every step compared with a fresh identically configured object and with the reference interpreter. "
+                "History independence (t4_c14): alias chains built with add_type()/typedef and re-pointed with replace=True, observed through "
+                "the outer names before and after; structure and union types (unions declared smallest-first) whose instances are dumped, "
+                "measured, compared, hashed, printed, assigned to, then constructed positionally / by keyword / by default and parsed, with "
+                "add_field() and failing operations in between; every observation compared with a new object that performed only the "
+                "definitional steps. "
                 "distinct = (history prefix); non-trivial = history of >= 3 operations")
     dc = impl.dc()
     rnd = mkrng(env["seed"], "c14")
@@ -182,5 +200,9 @@ def run(env) -> Result:
 
 
 def replay(body) -> int:
+    case = body.get("case") or {}
+    if str(case.get("family", "")).startswith("t4:"):
+        print("replay:", body.get("what"))
+        return t4_c14.replay(case)
     print("replay:", body.get("what"), body.get("case"))
     return 0
